@@ -60,7 +60,7 @@ void h_super_bnd_dfs(void) {
   in_Glu.xsup = in_xsup; in_Glu.xsup_end = in_xsup_end; in_Glu.supno = in_supno; in_Glu.lsub = in_lsub; in_Glu.xlsub = in_xlsub; in_Glu.xlsub_end = in_xlsub_end;
 
   /* ---------- well-formed pre-state ---------- */
-  __CPROVER_assume(0 <= in_jcol && WMIN <= in_w && in_w <= WMAX && in_jcol + in_w <= M);
+  __CPROVER_assume(JLO <= in_jcol && in_jcol <= JHI && WMIN <= in_w && in_w <= WMAX && in_jcol + in_w <= M);
   /* the columns of the H-supernode in A: extents inside rowind, at most ACOL entries each (bound of this unit), rows < m */
   for (c = 0; c < M; c++) if (in_jcol <= c && c < in_jcol + in_w)
     __CPROVER_assume(0 <= in_colbeg[c] && in_colbeg[c] <= in_colend[c] && in_colend[c] <= NZ && in_colend[c] - in_colbeg[c] <= ACOL);
@@ -119,8 +119,12 @@ void h_super_bnd_dfs(void) {
   __CPROVER_assert(in_perm_r[g_r] == g_perm0[g_r] && in_iperm_r[g_r] == g_iperm0[g_r] && in_xprune[g_r] == g_xprune0[g_r] && in_ispruned[g_r] == g_ispruned0[g_r] && in_lsub[g_p] == g_lsub0[g_p], "inputs not written");
 
   __CPROVER_assert(0, "canary: super_bnd_dfs returns");
-  if (npiv > 0 && g_cnt >= 2) __CPROVER_assert(0, "canary: off-diagonal pivoting, at least two rows counted");
+  if (npiv > 0 && g_cnt >= 1 && g_num > 0) __CPROVER_assert(0, "canary: off-diagonal pivoting, rows counted");
+#if JHI >= 2
   if (g_cs[0] && g_cs[1] && g_cnt >= 1) __CPROVER_assert(0, "canary: two representatives explored");
+#endif
   if (in_jcol >= 1 && g_cs[in_jcol - 1] && in_ispruned[in_jcol - 1] && g_cnt >= 1) __CPROVER_assert(0, "canary: pruned representative explored");
+#if WMAX >= 2
   if (in_w >= 2 && g_cnt >= 2) __CPROVER_assert(0, "canary: H-supernode of two columns");
+#endif
 }
